@@ -7,7 +7,6 @@ import (
 	"github.com/benoitkugler/webrender/css/selector"
 	"golang.org/x/net/html"
 
-	"wrverif/res"
 	"wrverif/sx"
 )
 
@@ -106,6 +105,7 @@ func (c *runner) exhaustive() error {
 		text string
 		s    selector.Sel
 		x    sx.X
+		ast  selector.VerifC05AST
 	}
 	var ps []psel
 	for _, t := range sels {
@@ -113,11 +113,12 @@ func (c *runner) exhaustive() error {
 		if err != nil || len(g) != 1 {
 			return fmt.Errorf("exhaustive: selector %q: %v", t, err)
 		}
-		x, ok := astX(selector.VerifC05Dump(g[0]))
+		ast := selector.VerifC05Dump(g[0])
+		x, ok := astX(ast)
 		if !ok {
 			return fmt.Errorf("exhaustive: selector %q unsupported", t)
 		}
-		ps = append(ps, psel{t, g[0], x})
+		ps = append(ps, psel{t, g[0], x, ast})
 	}
 	var trees []*html.Node
 	memo := map[int][]forest{}
@@ -168,8 +169,8 @@ func (c *runner) exhaustive() error {
 					model := rs.Xs[si+1].Xs[1].S
 					pairs++
 					if impl != model {
-						c.add(res.Finding{Kind: "corr", Op: "corr:match", Input: fmt.Sprintf("sel=%s tree=%s", strconv.Quote(p.text), treeText(trees[t0+ti])),
-							Impl: impl, Model: model, Reason: "exhaustive enumeration: match bits per node differ", Key: "exhaustive"})
+						c.add(matchDiffers(treeInDomain(trees[t0+ti]) && selInDomain(p.ast), fmt.Sprintf("sel=%s tree=%s", strconv.Quote(p.text), treeText(trees[t0+ti])),
+							impl, model, "exhaustive enumeration: match bits per node differ", 0))
 					}
 				}
 			}
